@@ -299,8 +299,9 @@ def _norm2(s):
     """
     2-norm of a vector of singular values computed on the entries divided by the largest one (no underflow / overflow of the squares).
     """
-    m = tn.max(tn.abs(s)) if s.numel() > 0 else tn.zeros([], dtype = s.dtype, device = s.device)
-    return m*tn.linalg.norm(s/m) if m > 0 else m
+    a = tn.abs(s)
+    m = tn.max(a) if a.numel() > 0 else tn.zeros([], dtype = a.dtype, device = a.device)
+    return m*tn.linalg.norm(a/m) if m > 0 else m
 
 def rank_chop(s,eps):
     """
